@@ -40,12 +40,21 @@ def C03_Statement : Prop :=
 
 /-! ### the branch field at the level of `fixOne` -/
 
-/-- `fix_addresses` on a relative statement: a diagnostic exactly for a short branch out of range -/
+/-- `fix_addresses` on a relative statement: a diagnostic exactly for a short branch out of range or
+(after fix 145359a) for any branch whose distance does not fit the 16-bit field -/
 theorem C03_diag_iff {ss : List Stmt} {i b : Nat} {s : Stmt} (hk : s.operand.kind = .relative)
     (hb : s.pkg.additional.int? = some b) :
     fixOne ss i s = .diag ↔
-      s.row.isShortBranch = true ∧ (if b ≤ i then sumSize ss b (i + 1) > 128 else sumSize ss (i + 1) b > 127) :=
+      (s.row.isShortBranch = true ∧ (if b ≤ i then sumSize ss b (i + 1) > 128 else sumSize ss (i + 1) b > 127)) ∨
+      (if b ≤ i then sumSize ss b (i + 1) > 65535 else sumSize ss (i + 1) b > 65535) :=
   fixOne_relative_diag_iff hk hb
+
+/-- (after fix 145359a) no internal error on a relative statement whose own size is counted -/
+theorem C03_no_internal {ss : List Stmt} {i b : Nat} {s : Stmt} (hk : s.operand.kind = .relative)
+    (hb : s.pkg.additional.int? = some b)
+    (hpos : s.row.isShortBranch = false → b ≤ i → 1 ≤ sumSize ss b (i + 1)) :
+    fixOne ss i s ≠ .internal :=
+  fixOne_relative_ne_internal hk hb hpos
 
 /-- in range: the stored byte, sign-extended, is `−Σ size(b..i)` (backward) or `Σ size(i+1..b−1)` (forward);
 long branches store the same quantity modulo 65536 in a 16-bit field -/
@@ -58,7 +67,7 @@ theorem C03_field {ss : List Stmt} {i b : Nat} {s : Stmt} (hk : s.operand.kind =
     (s.row.isShortBranch = true → ¬ b ≤ i → sumSize ss (i + 1) b ≤ 127 →
       fixOne ss i s = .ok (withAdditional s (branchValue true (sumSize ss (i + 1) b))) ∧
       sext (sumSize ss (i + 1) b) 8 = (sumSize ss (i + 1) b : Int)) ∧
-    (s.row.isShortBranch = false → b ≤ i → 1 ≤ sumSize ss b (i + 1) → sumSize ss b (i + 1) ≤ 65536 →
+    (s.row.isShortBranch = false → b ≤ i → 1 ≤ sumSize ss b (i + 1) → sumSize ss b (i + 1) ≤ 65535 →
       fixOne ss i s = .ok (withAdditional s (branchValue false (65536 - sumSize ss b (i + 1)))) ∧
       65536 - sumSize ss b (i + 1) < 65536 ∧
       sext (65536 - sumSize ss b (i + 1)) 16 % 65536 = (-(sumSize ss b (i + 1) : Int)) % 65536) ∧
@@ -73,14 +82,14 @@ theorem C03_field {ss : List Stmt} {i b : Nat} {s : Stmt} (hk : s.operand.kind =
 /-! ### the branch field of an accepted program -/
 
 /-- No ORG between the branch and its target (more precisely: none among the statements of index
-`min b i < j ≤ max b i`), a branch statement of non-zero size, and, for a long backward branch, no wrap
-beyond 65536: the stored field is the displacement the CPU needs. -/
+`min b i < j ≤ max b i`) and a branch statement of non-zero size: the stored field is the displacement the
+CPU needs.  (The former hypothesis `hwrap`, "no wrap beyond 65536 for a long backward branch", is no longer
+needed: after fix 145359a a distance that does not fit is a diagnostic.) -/
 theorem C03_branch {fs : Files} {lines : List Str} {a : Assembly} (h : assemble fs lines = .ok a)
     {i b : Nat} {m : Mode} {s t : Stmt} (hs : a.stmts[i]? = some s) (hk : s.operand.kind = .relative)
     (hv : s.operand.value = .address b m) (ht : a.stmts[b]? = some t)
     (hno : ∀ j u, min b i < j → j ≤ max b i → a.stmts[j]? = some u → u.row.mnemonic ≠ "ORG")
-    (hsz : 0 < s.pkg.size)
-    (hwrap : ∀ x, s.row.isShortBranch = false → b ≤ i → addrNat s = some x → x + s.pkg.size ≤ 65536) :
+    (hsz : 0 < s.pkg.size) :
     BranchField s t := by
   obtain ⟨st⟩ := assemble_stages h
   obtain ⟨s4, hs4, hfix, hsame, hadd⟩ := st.branch_pre hs hk
@@ -118,7 +127,7 @@ theorem C03_branch {fs : Files} {lines : List Str} {a : Assembly} (h : assemble 
       have hpos : 1 ≤ sumSize st.ss4 b (i + 1) := by rw [hsum, sumSize_succ hbi hs]; omega
       have hle : sumSize st.ss4 b (i + 1) ≤ 128 := by
         rcases Nat.lt_or_ge 128 (sumSize st.ss4 b (i + 1)) with h' | h'
-        · exact absurd ((fixOne_relative_diag_iff hk4 hb4).mpr ⟨hshort4, by simp [hbi]; exact h'⟩) hndiag
+        · exact absurd ((fixOne_relative_diag_iff hk4 hb4).mpr (Or.inl ⟨hshort4, by simp [hbi]; exact h'⟩)) hndiag
         · exact h'
       obtain ⟨h1, h2, h3⟩ := fixOne_short_backward hk4 hb4 hshort4 hbi hpos hle
       rw [hfix] at h1
@@ -130,7 +139,7 @@ theorem C03_branch {fs : Files} {lines : List Str} {a : Assembly} (h : assemble 
       have hlink := hc.forward hib hs ht (fun j h1 h2 => hflag j (by rw [Nat.min_def]; split <;> omega) (by rw [Nat.max_def]; split <;> omega)) hx hy
       have hle : sumSize st.ss4 (i + 1) b ≤ 127 := by
         rcases Nat.lt_or_ge 127 (sumSize st.ss4 (i + 1) b) with h' | h'
-        · exact absurd ((fixOne_relative_diag_iff hk4 hb4).mpr ⟨hshort4, by simp [hbi]; exact h'⟩) hndiag
+        · exact absurd ((fixOne_relative_diag_iff hk4 hb4).mpr (Or.inl ⟨hshort4, by simp [hbi]; exact h'⟩)) hndiag
         · exact h'
       obtain ⟨h1, h3⟩ := fixOne_short_forward hk4 hb4 hshort4 hbi hle
       rw [hfix] at h1
@@ -143,8 +152,10 @@ theorem C03_branch {fs : Files} {lines : List Str} {a : Assembly} (h : assemble 
     by_cases hbi : b ≤ i
     · have hlink := hc.backward hbi hs ht (fun j h1 h2 => hflag j (by rw [Nat.min_def]; split <;> omega) (by rw [Nat.max_def]; split <;> omega)) hx hy
       have hpos : 1 ≤ sumSize st.ss4 b (i + 1) := by rw [hsum, sumSize_succ hbi hs]; omega
-      have hw := hwrap x hlong hbi hx
-      have hle : sumSize st.ss4 b (i + 1) ≤ 65536 := by rw [hsum]; omega
+      have hle : sumSize st.ss4 b (i + 1) ≤ 65535 := by
+        rcases Nat.lt_or_ge 65535 (sumSize st.ss4 b (i + 1)) with h' | h'
+        · exact absurd ((fixOne_relative_diag_iff hk4 hb4).mpr (Or.inr (by simp [hbi]; exact h'))) hndiag
+        · exact h'
       obtain ⟨h1, h2, _⟩ := fixOne_long_backward hk4 hb4 hlong4 hbi hpos hle
       rw [hfix] at h1
       have hse : s = _ := Outcome.ok.inj h1
@@ -154,11 +165,7 @@ theorem C03_branch {fs : Files} {lines : List Str} {a : Assembly} (h : assemble 
       have hlink := hc.forward hib hs ht (fun j h1 h2 => hflag j (by rw [Nat.min_def]; split <;> omega) (by rw [Nat.max_def]; split <;> omega)) hx hy
       have hle : sumSize st.ss4 (i + 1) b ≤ 65535 := by
         rcases Nat.lt_or_ge 65535 (sumSize st.ss4 (i + 1) b) with h' | h'
-        · exfalso
-          have hf := fixOne_relative (ss := st.ss4) (i := i) hk4 hb4
-          simp only [hbi, if_false, hlong4, Bool.false_eq_true, false_and] at hf
-          rw [numericOfInt_big (by omega)] at hf
-          rw [hfix] at hf; cases hf
+        · exact absurd ((fixOne_relative_diag_iff hk4 hb4).mpr (Or.inr (by simp [hbi]; exact h'))) hndiag
         · exact h'
       obtain ⟨h1, _⟩ := fixOne_long_forward hk4 hb4 hlong4 hbi hle
       rw [hfix] at h1
@@ -279,7 +286,8 @@ theorem C03_Statement_false : ¬ C03_Statement := by
 
 /-! ### summary -/
 
-/-- What is proved of C03. (1) `fix_addresses` reports a diagnostic exactly for short branches out of range;
+/-- What is proved of C03. (1) `fix_addresses` reports a diagnostic exactly for short branches out of range and
+(after fix 145359a) for distances that do not fit 16 bits;
 (2) in range, the stored field encodes the sum of sizes, as a sign-extended byte or modulo 65536;
 (3) for an accepted program without an ORG between branch and target, field + next instruction address =
 target address; (4) PCR statements store `target − address − size`.
@@ -288,13 +296,13 @@ Not claimed: the 8-bit PCR form is only chosen for offsets in −128..127 (the f
 theorem C03_partial :
     (∀ (ss : List Stmt) (i b : Nat) (s : Stmt), s.operand.kind = .relative → s.pkg.additional.int? = some b →
       (fixOne ss i s = .diag ↔
-        s.row.isShortBranch = true ∧ (if b ≤ i then sumSize ss b (i + 1) > 128 else sumSize ss (i + 1) b > 127))) ∧
+        (s.row.isShortBranch = true ∧ (if b ≤ i then sumSize ss b (i + 1) > 128 else sumSize ss (i + 1) b > 127)) ∨
+        (if b ≤ i then sumSize ss b (i + 1) > 65535 else sumSize ss (i + 1) b > 65535))) ∧
     (∀ (fs : Files) (lines : List Str) (a : Assembly), assemble fs lines = .ok a →
       ∀ (i b : Nat) (m : Mode) (s t : Stmt), a.stmts[i]? = some s → s.operand.kind = .relative →
         s.operand.value = .address b m → a.stmts[b]? = some t →
         (∀ j u, min b i < j → j ≤ max b i → a.stmts[j]? = some u → u.row.mnemonic ≠ "ORG") →
         0 < s.pkg.size →
-        (∀ x, s.row.isShortBranch = false → b ≤ i → addrNat s = some x → x + s.pkg.size ≤ 65536) →
         BranchField s t) ∧
     (∀ (ss : List Stmt) (i : Nat) (s s' : Stmt), (s.operand.kind == .relative) = false →
       s.operand.value.isAddrExpr = false → s.operand.value.isAddress = false → s.operand.value ≠ .pyNone →
@@ -302,7 +310,7 @@ theorem C03_partial :
       ∃ target start v, fixRel ss s = .ok target ∧ addrIntOf ss i = some start ∧
         numericOfInt (pcrJump s target start) (some s.pcrHint) .none = .ok v ∧ s' = withAdditional s v) :=
   ⟨fun _ _ _ _ hk hb => C03_diag_iff hk hb,
-   fun _ _ _ h _ _ _ _ _ hs hk hv ht hno hsz hw => C03_branch h hs hk hv ht hno hsz hw,
+   fun _ _ _ h _ _ _ _ _ hs hk hv ht hno hsz => C03_branch h hs hk hv ht hno hsz,
    fun _ _ _ _ hk h1 h2 h3 hn h => fixOne_pcr hk h1 h2 h3 hn h⟩
 
 /-! ### non-vacuity -/
